@@ -21,6 +21,15 @@ Seqs == {[k |-> "cs_seq", doc |-> d, key |-> "k1", rings |-> rs, mut |-> Mut("no
 Unsigned == {[k |-> "cs", doc |-> d, key |-> "", keyring |-> kr, mut |-> Mut(o)] : d \in Docs, kr \in Keyrings, o \in {"none", "splice_after"}}
 \* keyring = nil cannot be written as a sequence: those vectors omit the field
 NilRing == {[k |-> "cs", doc |-> d, key |-> sk, mut |-> Mut(o)] : d \in Docs, sk \in {"k1", ""}, o \in {"none", "splice_inside", "drop_sig"}}
+\* signature armor holding several packets (good = the document's own signature by k1; unrelated = by k1 over another
+\* text; empty = by k1 over the empty text; k2good = by k2 over this text), in every order of up to three
+DocA0 == Doc(<<1, 4, 6, 5, 9, 11, 2, 4>>, FALSE, TRUE)
+PacketKinds == {"good", "unrelated", "empty", "k2good"}
+PacketSeqs == {<<a>> : a \in PacketKinds} \cup {<<a, b>> : a \in PacketKinds, b \in PacketKinds} \cup
+              {<<"unrelated", "unrelated", "empty">>, <<"empty", "unrelated", "good">>, <<"unrelated", "empty", "k2good">>}
+MultiSig == {[k |-> "cs", doc |-> d, key |-> "k1", keyring |-> kr,
+              mut |-> [op |-> "multi_sig", num |-> 0, den |-> 1, mask |-> 0, byte |-> 0, packets |-> ps]] :
+                d \in {DocA0}, kr \in {<<"k1">>, <<"k2">>, <<"k1", "k2">>}, ps \in PacketSeqs}
 \* ---- several readers alive in one process -------------------------------------------------------------
 \* reader 1 reads a signed document to its end and is polled `extra` more times; readers 2 (signed, keyring)
 \* and 3 (plain, no keyring) are then open at the same time and read in some interleaving; reader 1 is polled
@@ -40,5 +49,5 @@ OpsFor(ds, extra, order, pollBefore) ==
     \o Nx(1, 1)
 ReaderOps == {[k |-> "cs_ops", docs |-> ds, keys |-> <<"k1", "k1", "">>, ops |-> OpsFor(ds, e, o, pb)] :
                  ds \in {<<DocA, DocB, DocC>>, <<DocC, DocA, DocB>>}, e \in 0..2, o \in {"ab", "ba", "alt"}, pb \in BOOLEAN}
-ASSUME Emit(SetToSeq(Signed \cup Unsigned) \o SetToSeq(NilRing) \o SetToSeq(EmptyForms) \o SetToSeq(Seqs) \o SetToSeq(ReaderOps))
+ASSUME Emit(SetToSeq(Signed \cup Unsigned) \o SetToSeq(NilRing) \o SetToSeq(EmptyForms) \o SetToSeq(Seqs) \o SetToSeq(ReaderOps) \o SetToSeq(MultiSig))
 =============================================================================
